@@ -155,6 +155,16 @@ var c08Seeds = []string{
 	"func f(n) { if n < 2 { return 1 }; return n * f(n-1) }; f(5)", "func f() { this.x = 5; return this.x }; f()", "func g() { return d }; g()", "func g() { return 2d }; g()",
 	"func f() { func g() { return 1 }; return g() }; f()", "func f() { while 1 { break } }; f()", "func f() { i=0; while i<3 { i=i+1; if i==2 { continue } }; return i }; f()",
 	"i=0; while i<2 { i=i+1; func g(a) { return a } }; g(1)",
+	// loop exits before / after / around definitions whose own bodies have loops with exits; several exits per loop at different block depths
+	"i=0; while i<5 { i=i+1; if i==3 { break }; func f() { j=0; while 1 { j=j+1; if j>2 { break } }; j } }; i+f()",
+	"i=0; while i<5 { i=i+1; func f() { j=0; while 1 { j=j+1; if j>2 { break } }; j }; if i==3 { break } }; i+f()",
+	"i=0; n=0; while i<5 { i=i+1; if i==3 { continue }; n=n+1; &c = `{% k=0; s=0; while k<3 { k=k+1; if k==2 { continue }; s=s+k }; s %}` }; `{n}:{c}`",
+	"i=0; while i<9 { i=i+1; if i==2 { continue }; if i==6 { break }; func g(m) { k=0; while 1 { k=k+1; if k>m { break }; if k==2 { continue } }; k } }; g(4)",
+	"i=0; while i<30 { i=i+1; if i==100 { break }; if i>0 { continue }; i=i+1000 }; i",
+	"i=0; n=0; while i<30 { i=i+1; if i>0 { if i==100 { break }; n=n+1; continue }; n=n+1000 }; n",
+	"i=0; while i<30 { i=i+1; if i==100 { if i { break } }; `{% if i>0 { continue } %}`; i=i+1000 }; i",
+	"func f(m) { i=0; while i<m { i=i+1; if i==100 { continue }; if i>0 { continue }; i=i+1000 }; i }; f(30)",
+	"i=0; while i<3 { i=i+1; j=0; while j<3 { j=j+1; if j==2 { continue }; if i==2 { break } }; if i==3 { break } }; [i,j]",
 	// operators
 	"1+2", "1-2", "1*2", "1/2", "1%2", "1^2", "1**2", "1??2", "1<2", "1<=2", "1==2", "1!=2", "1>=2", "1>2", "1&2", "1|2", "1&&2", "1||2", "-1", "+1", "-x", "-(1)", "1+-2",
 	"1+2*3-4/5%6^7??8", "1<2<3", "1==2!=3", "1 || 2 || 3", "1 && 2 && 3", "1 || 2 && 3 | 4 & 5", "x ?? y ?? 1", "a * b ?? c", "1 ＋ 2 － 3 ＊ 4 ／ 5",
@@ -505,6 +515,61 @@ func (g *g08) stmt(d int) string {
 	return g.expr(d)
 }
 
+// loopNest: a loop whose body mixes exits at different block depths (bare, inside if / else / template blocks, inside an
+// inner loop) with definitions (func / computed) whose own bodies contain loops with exits, in random order
+func (g *g08) exitStmt(d int) string {
+	r := g.r
+	e := pick(r, []string{"break", "continue"})
+	c := pick(r, []string{"i==3", "i>0", "i==100", "a", "!a", "i%2==0", g.expr(0)})
+	switch r.intn(7) {
+	case 0:
+		return e
+	case 1, 2:
+		return "if " + c + " { " + e + " }"
+	case 3:
+		return "if " + c + " { if " + pick(r, []string{"i", "b", "1"}) + " { " + e + " } }"
+	case 4:
+		return "if " + c + " { n=n+1 } else { " + e + " }"
+	case 5:
+		return "`{% if " + c + " { " + e + " } %}`"
+	}
+	return "if " + c + " { n=n+1; " + e + " }"
+}
+func (g *g08) loopNest(d int) string {
+	r := g.r
+	v := pick(r, []string{"i", "j", "k"})
+	var parts []string
+	parts = append(parts, v+"="+v+"+1")
+	k := 2 + r.intn(4)
+	for j := 0; j < k; j++ {
+		switch r.intn(6) {
+		case 0, 1, 2:
+			parts = append(parts, g.exitStmt(d))
+		case 3:
+			if d > 0 {
+				body := g.loopNest(d - 1)
+				if r.chance(1, 2) {
+					parts = append(parts, "func "+pick(r, []string{"f", "g", "h"})+"(m) { "+v+"=0; "+body+"; "+v+" }")
+				} else {
+					parts = append(parts, "&"+pick(r, []string{"c", "e"})+" = `{% "+v+"=0; "+body+"; "+v+" %}`")
+				}
+			} else {
+				parts = append(parts, "n=n+1")
+			}
+		case 4:
+			if d > 0 {
+				parts = append(parts, g.loopNest(d-1))
+			} else {
+				parts = append(parts, "if a { n=n+2 }")
+			}
+		default:
+			parts = append(parts, pick(r, []string{"n=n+1", "if a { n=n+2 }", "`{n}`", "x = d6"}))
+		}
+	}
+	cond := pick(r, []string{v + "<5", v + "<30", "1", "a"})
+	return "while " + cond + " { " + strings.Join(parts, "; ") + " }"
+}
+
 func (g *g08) stmts(d int, k int) string {
 	var sb strings.Builder
 	for j := 0; j < k; j++ {
@@ -561,6 +626,13 @@ func (g *g08) program() string {
 		return g.stProgram()
 	}
 	g.inLoop, g.inFunc = 0, 0
+	if g.r.chance(1, 6) {
+		p := pick(g.r, []string{"", "i=0; n=0; ", "a=1; "}) + g.loopNest(1+g.r.intn(2))
+		if g.r.chance(1, 2) {
+			p += "; " + pick(g.r, []string{"n", "i+f(3)", "`{n}:{c}`", "g(4)", "[i,n]"})
+		}
+		return p
+	}
 	return g.stmts(1+g.r.intn(3), 1+g.r.intn(4))
 }
 
@@ -915,6 +987,10 @@ func c08Run(args []string) {
 			} else if strings.Contains(o.Err, c08E3) && len(hits) < 3 {
 				// the VM's own diagnosis of ill-formed code
 				hits = append(hits, map[string]any{"mode": mode, "vars": desc, "err": o.Err})
+			} else if strings.Contains(o.Err, "嵌套层数过多") && strings.Count(in.Src, "{") < 20 && len(hits) < 3 {
+				// more than 20 open blocks although the source has fewer than 20 opening braces in all: on well-formed code
+				// the number of open blocks of a body never exceeds its static nesting, so some path leaks a block per round
+				hits = append(hits, map[string]any{"mode": mode, "vars": desc, "err": o.Err, "open_braces_in_source": strings.Count(in.Src, "{")})
 			}
 		}
 		for _, mode := range modes {
